@@ -36,6 +36,9 @@ POOL = [
     'Err.new("m")', "ValueErr", "_", "Either.newVal(1)", 'Either.newErr(Err.new("e"))', "1.try",
     "Int.bear", "Int.bear({}).new(5)", "Int.bear({}).new(0)", "(Int.bear({}).new(5) - Int.bear({}).new(5))", "Float.bear({}).new(0.0)", 'Str.bear({}).new("")', "Arr.bear({}).new(1, 2)", "Str.bear", "{call: {|x| x}}", "{_missing: {|s, n| n}}",
 ]
+# integers at and around sizes where tables, caches and fast paths change
+INTS = ["7", "64", "127", "128", "129", "255", "256", "257", "1023", "1024", "1025", "4095", "4096", "65535", "65536", "-128", "-129", "-1024", "-1025",
+        "2147483647", "2147483648", "-2147483648", "-2147483649", "4294967296", "9007199254740993", "(2 ** 10)", '("ab" * 512).len', "(1 << 16)"]
 SMALL = ["nil", "0", "-1", "2", '"a"', "[1, 2, 3]", "{a: 1}", "(1:3)", "{|x| x}", "Int", "1.5", "%{1: 2}"]
 THIRD = ["nil", "1", "-1", '"b"', "[]", "{|x, y| x}", "{}", "9223372036854775807"]
 KWS = ["", "{base: 2}", "{base: nil}", "{end: 1}", "{sep: nil}", "{private?: 1}", "{key: {|x| x}}", "{key: 3}"]
@@ -78,7 +81,19 @@ def run_cases(chk, reqs, limit_ms=1500, workers=NCPU):
     """Feed `harness crash` workers; a worker that dies is restarted on the rest of its chunk and
     the case that was running is recorded with the reason. Returns {id: reply}."""
     exe = build_harness()
-    chunks = [reqs[i::workers] for i in range(workers)]
+    # requests of one group (key "group") stay together, in order, in one worker process: they are sequences whose point is
+    # what the process remembers from the earlier ones; all other requests are dealt round-robin
+    chunks = [[] for _ in range(workers)]
+    gidx, n = {}, 0
+    for r in reqs:
+        g = r.get("group")
+        if g is None:
+            chunks[n % workers].append(r)
+            n += 1
+        else:
+            if g not in gidx:
+                gidx[g] = len(gidx) % workers
+            chunks[gidx[g]].append(r)
     results = {}
     lock = threading.Lock()
 
@@ -310,8 +325,10 @@ def main(chk):
     objs = [o for o in world if "props" in o]
     reqs, meta = [], {}
 
-    def add(r, fam):
+    def add(r, fam, group=None):
         r["id"] = len(reqs)
+        if group is not None:
+            r["group"] = group
         reqs.append(r)
         meta[r["id"]] = fam
 
@@ -370,6 +387,34 @@ def main(chk):
             add({"mode": "src", "src": "(%s)%s{|x, y| [x, y]}" % (a, f)}, "litcall")
             add({"mode": "src", "src": "g := %s; [1, 2]%s^g" % (a, f)}, "varcall")
             add({"mode": "src", "src": "(%s)%s(%s){|acc, x| acc}" % (a, f, SMALL[len(a) % len(SMALL)])}, "litcall")
+    # integers around table / cache sizes as receivers and arguments
+    for x in INTS:
+        add({"mode": "src", "src": "x := %s; [x, x + 0, x - 1, x + 1, x * 1, -x, x.S, x.repr, [x], {a: x}, %%{x: x}, x == x, x <=> x, (x:x+2).A]" % x}, "ints")
+        for o in objs:
+            if o["name"] in ("Int", "Num", "Comparable", "Obj", "BaseObj", "Iterable", "Wrappable"):
+                for name, typ in o["props"]:
+                    if is_ident(name):
+                        add({"mode": "src", "src": "(%s).%s" % (x, name)}, "ints")
+                        add({"mode": "src", "src": "(%s).%s(%s)" % (x, name, INTS[(len(name) + len(x)) % len(INTS)])}, "ints")
+        for op in INFIX[:17]:
+            add({"mode": "src", "src": "(%s) %s (%s)" % (x, op, INTS[(len(op) * 7 + len(x)) % len(INTS)])}, "ints")
+            add({"mode": "src", "src": "(3) %s (%s)" % (op, x)}, "ints")
+    # sequences in ONE process: many distinct values through the same built-in, then the first ones again (what a cache, a memo
+    # or a table that grows keeps from earlier calls must not make a later call crash)
+    seqvals = ['"p%d"' % i for i in range(90)] + ['"[a-%s]%d+"' % (chr(98 + i % 20), i) for i in range(90)]
+    seqints = [str(1000 + 37 * i) for i in range(90)]
+    for o in objs:
+        if o["name"] not in ("Str", "Int", "Arr", "Map", "Obj", "Range", "JSON", "Kernel", "Float"):
+            continue
+        recv = {"Str": '"a1 b22 c333"', "Int": "12345", "Arr": '["a1", "b22", 3]', "Map": '%{"a1": 1}', "Obj": '{a1: 1}', "Range": "(1:50)",
+                "JSON": "JSON", "Kernel": "Kernel", "Float": "1.5"}[o["name"]]
+        for name, typ in o["props"]:
+            if typ != "BuiltInType":
+                continue
+            g = "seq:%s#%s" % (o["name"], name)
+            for vals in (seqvals, seqints):
+                for v in vals + vals[:6] + vals[-3:]:
+                    add({"mode": "direct", "recv": o["name"], "prop": name, "args": [recv, v]}, "sequence", group=g)
     # syntax: every construct, every hole, every pool value and every raising expression
     fills = POOL + RAISERS
     for t in SYNTAX1:
@@ -400,6 +445,11 @@ def main(chk):
                      "<>._iter.next", "it := <>._iter; [it.next, it.next, it.next, it.next]"]:
             add({"mode": "src", "src": prog, "stdin": stdin or "\n"}, "stdin")
 
+    dnames = sorted(set(n for o in objs if o["name"] in ("Diamond", "Iterable", "Iter") for n, t in o["props"] if is_ident(n)))
+    for stdin in ("3\n8\n5\n", "", "a\n"):
+        for n in dnames:
+            for form in ("<>.%s", "<>.%s {|x| x}", "<>.%s(1)", "<>._iter.%s", "<>._iter._iter.%s", "it := <>._iter; it@{|x| x}; it.%s", "[<>.%s, <>.%s]"):
+                add({"mode": "src", "src": form.replace("%s", n), "stdin": stdin}, "stdin")
     chk.note("sweep: %d cases (%d Go built-in properties, %d native properties, %d names, pool of %d values)" % (
         len(reqs), nprops_b, nprops_n, len(names), len(POOL)))
     res = run_cases(chk, reqs, limit_ms=1500 if quick else 4000)
@@ -451,7 +501,21 @@ def main(chk):
     matched_bad = set()
     for site, lst in sorted(panics.items()):
         lst.sort(key=lambda rd: len(json.dumps(rd[0])))
-        r, d = lst[0]
+        # replay before reporting: the case alone in a new process (its whole group for a sequence). A death that does not
+        # repeat (a worker lost to the machine, not to the interpreter) is counted in the evidence and not reported.
+        confirmed = None
+        for r0, d0 in lst[:4]:
+            again = [dict(x) for x in reqs if x.get("group") == r0["group"] and x["id"] <= r0["id"]] if r0.get("group") else [dict(r0)]
+            rr = run_cases(chk, again, limit_ms=4000, workers=1)
+            d1 = rr.get(r0["id"], {})
+            if d1.get("kind") in ("panic", "died"):
+                confirmed = (r0, d1 if d1.get("panic") or not d0.get("panic") else d0)
+                break
+        if confirmed is None:
+            chk.cov["unrepeatable_worker_deaths"] = chk.cov.get("unrepeatable_worker_deaths", 0) + len(lst)
+            chk.note("%d case(s) ended with a dead worker at site %s but none repeats when run alone: not reported" % (len(lst), site))
+            continue
+        r, d = confirmed
         for r2, d2 in lst:
             for e in entries:
                 if e["key"].replace('"', "'") in bad and any(e["line"] <= int(n) <= e["end"] for n in
